@@ -53,6 +53,11 @@ func (r *scriptReader) Read(p []byte) (int, error) {
 }
 
 func genBlocks(rng *rand.Rand, nb int) ([]byte, []map[string]any, []int) {
+	return genBlocksSized(rng, nb, 0)
+}
+
+// genBlocksSized: fixed > 0 makes every block exactly that many bytes (a divisor of the receive buffer: block ends then fall on its end)
+func genBlocksSized(rng *rand.Rand, nb int, fixed int) ([]byte, []map[string]any, []int) {
 	var data []byte
 	var blocks []map[string]any
 	var bounds []int // offsets where a read may end inside a type/length field
@@ -71,6 +76,9 @@ func genBlocks(rng *rand.Rand, nb int) ([]byte, []map[string]any, []int) {
 			vlen = rng.Intn(3000)
 		}
 		typ := enc.TLNum([]uint64{5, 6, 100, 253, 800, 70000}[rng.Intn(6)])
+		if fixed > 0 {
+			typ, vlen = 6, fixed-4 // 1-byte type, 3-byte length
+		}
 		hdr := make([]byte, typ.EncodingLength()+enc.TLNum(vlen).EncodingLength())
 		p := typ.EncodeInto(hdr)
 		enc.TLNum(vlen).EncodeInto(hdr[p:])
@@ -109,34 +117,48 @@ func TestStreamGen(t *testing.T) {
 			nb = 4000
 		}
 		data, blocks, bounds := genBlocks(rng, nb)
+		aligned := 0
+		if tr%12 == 7 || tr%12 == 11 { // every read is one whole block and the blocks tile the 32-packet buffer exactly: more than one buffer of them
+			aligned = []int{4400, 8800, 2200, 1100}[(tr/12)%4]
+			data, blocks, bounds = genBlocksSized(rng, 32*8800/aligned+40, aligned)
+		}
 		bytesTotal += len(data)
 		w.Emit(map[string]any{"ev": "Reset", "blocks": blocks})
 		var chunks []int
-		switch tr % 6 {
-		case 0:
-			chunks = []int{1}
-		case 1:
-			chunks = []int{1 << 20} // as much as the buffer takes
-		case 2:
-			for i := 0; i < 50; i++ {
-				chunks = append(chunks, 1+rng.Intn(20000))
+		if aligned > 0 {
+			for i := 0; i < len(blocks); i++ {
+				chunks = append(chunks, aligned)
 			}
-		case 3:
-			for i := 0; i < 50; i++ {
-				chunks = append(chunks, 1+rng.Intn(7))
-			}
-		case 4: // every read ends inside a type or length field when possible
-			prev := 0
-			for _, b := range bounds {
-				if b > prev {
-					chunks = append(chunks, b-prev)
-					prev = b
-				}
-			}
-			chunks = append(chunks, 1<<20)
+		}
+		switch {
+		case aligned > 0:
 		default:
-			for i := 0; i < 50; i++ {
-				chunks = append(chunks, 8790+rng.Intn(20))
+			switch tr % 6 {
+			case 0:
+				chunks = []int{1}
+			case 1:
+				chunks = []int{1 << 20} // as much as the buffer takes
+			case 2:
+				for i := 0; i < 50; i++ {
+					chunks = append(chunks, 1+rng.Intn(20000))
+				}
+			case 3:
+				for i := 0; i < 50; i++ {
+					chunks = append(chunks, 1+rng.Intn(7))
+				}
+			case 4: // every read ends inside a type or length field when possible
+				prev := 0
+				for _, b := range bounds {
+					if b > prev {
+						chunks = append(chunks, b-prev)
+						prev = b
+					}
+				}
+				chunks = append(chunks, 1<<20)
+			default:
+				for i := 0; i < 50; i++ {
+					chunks = append(chunks, 8790+rng.Intn(20))
+				}
 			}
 		}
 		frames := []map[string]any{}
